@@ -89,7 +89,7 @@ class Rows(object):
 # abstract diagram
 # ---------------------------------------------------------------------------
 
-IN_COMPONENT = ('comp', 'nested')     # containers whose content belongs to the component under test
+IN_COMPONENT = ('comp', 'nested', 'deep')     # containers whose content belongs to the component under test
 
 
 class Attr(object):
@@ -251,6 +251,11 @@ def build(d, rows=None):
         R.add('PE_PE', Element_ID=inner3, Visibility=1, Component_ID=nested, type=7)
         R.add('EP_PKG', Package_ID=inner3, Direct_Sys_ID=sys_id, Name='Inner3')
         containers['nested'] = ('pkg', inner3)
+        # a package inside the package of the component (two package levels below it)
+        deep = R.new_id()
+        R.add('PE_PE', Element_ID=deep, Visibility=1, Package_ID=inner, type=7)
+        R.add('EP_PKG', Package_ID=deep, Direct_Sys_ID=sys_id, Name='Deep')
+        containers['deep'] = ('pkg', deep)
     B.containers = containers
 
     def pe(elem_id, where, ty):
